@@ -9,8 +9,10 @@ born       the BORN-file convention stores Born tensors of symmetry-independent 
            on crystals whose equivalent atoms are related by 3-, 4- and 6-fold operations.
 yaml       phonopy.yaml through PhonopyYaml on a concrete object (ground facts, not solver claims): a default dump does not depend on
            earlier dumps with other settings; cells, both dataset types and force constants read back as written.
-Other text round trips (FORCE_SETS, FORCE_CONSTANTS, hdf5, BORN text, save()/load() priority rules) are NOT covered: formatted floats
-have no solver theory and PyYAML/h5py are C libraries.
+files      FORCE_SETS (types 1, 2, 1 read as 2), FORCE_CONSTANTS and force_constants.hdf5 (full/compact, p2s_map, unit, gzip), BORN, and whole
+           objects through save()/load() (dataset form, force-constant form, xz/gzip) read back by phonopy's own parsers: ground facts on
+           concrete objects (interleaved F-centred rock salt with NAC), not solver claims - formatted floats have no solver theory and
+           PyYAML/h5py/lzma are C libraries.
 """
 from fractions import Fraction
 
@@ -41,7 +43,7 @@ def units(tier):
         from checks.c08 import _sb_crystals
         for k, v in _sb_crystals().items():
             CRYSTALS.setdefault(k, (v[0], v[1], v[2]))
-    return [("dataset", 0), ("yaml", 0)] + [("born", c) for c in CRYSTALS]
+    return [("dataset", 0), ("yaml", 0), ("files", 0)] + [("born", c) for c in CRYSTALS]
 
 
 def dataset_unit(u, res):
@@ -267,10 +269,149 @@ def yaml_unit(u, res):
     return res
 
 
+def files_unit(u, res):
+    """The other files phonopy writes, read back by phonopy's own parsers (ground facts on concrete objects; text formats have no solver theory):
+    FORCE_SETS (both dataset types), FORCE_CONSTANTS and force_constants.hdf5 (full and compact layout, with p2s_map), BORN, and a whole object
+    through save()/load() (dataset form, force-constant form, compressed)."""
+    import io, os, shutil, tempfile
+    ctx = harness.setup()
+    from engine import bridge
+    import geometries
+    import phonopy
+    from phonopy import file_IO
+    br = bridge.Bridge(ctx.shim, ctx.ir); br.install()
+    facts = []
+    tmp = tempfile.mkdtemp(prefix="c16files_", dir=os.environ.get("VERIF_SCRATCH") or None)
+    cwd = os.getcwd()
+    try:
+        os.chdir(tmp)           # load() looks for FORCE_SETS/BORN in the current directory: keep it empty of anything but what a fact writes
+        rng = np.random.default_rng(11)
+        ph = geometries.phonopy_obj("nacl8i", "111")          # interleaved species, F-centred: p2s_map = [0, 1], images not contiguous
+        n = len(ph.supercell)
+        ph.generate_displacements(distance=0.03)
+        ph.forces = rng.uniform(-1, 1, (len(ph.displacements), n, 3))
+        ds1 = ph.dataset
+        # --- FORCE_SETS type 1
+        txt = "\n".join(file_IO.get_FORCE_SETS_lines(ds1))
+        back = file_IO.parse_FORCE_SETS_from_strings(txt)
+        ok = back["natom"] == ds1["natom"] and len(back["first_atoms"]) == len(ds1["first_atoms"]) and all(
+            a["number"] == b["number"] and np.allclose(a["displacement"], b["displacement"], atol=1e-15) and np.allclose(a["forces"], b["forces"], atol=1e-10)
+            for a, b in zip(ds1["first_atoms"], back["first_atoms"]))
+        facts.append(("FORCE_SETS type-1: displaced atoms, displacements and forces parse back as written", bool(ok), "FORCE_SETS (type 1) written by phonopy parses back to other data"))
+        # --- FORCE_SETS type 2 (random displacements of all atoms, distinct per atom and direction)
+        ds2 = {"displacements": rng.uniform(-0.03, 0.03, (5, n, 3)), "forces": rng.uniform(-1, 1, (5, n, 3))}
+        txt = "\n".join(file_IO.get_FORCE_SETS_lines(ds2))
+        back = file_IO.parse_FORCE_SETS_from_strings(txt, natom=n)
+        ok = np.shape(back["displacements"]) == (5, n, 3) and np.allclose(back["displacements"], ds2["displacements"], atol=1e-8) and np.allclose(back["forces"], ds2["forces"], atol=1e-8)
+        facts.append(("FORCE_SETS type-2: displacements and forces parse back as written", bool(ok), "FORCE_SETS (type 2) written by phonopy parses back to other data"))
+        back12 = file_IO.parse_FORCE_SETS_from_strings("\n".join(file_IO.get_FORCE_SETS_lines(ds1)), to_type2=True)
+        from phonopy.structure.dataset import get_displacements_and_forces
+        d12, f12 = get_displacements_and_forces(ds1)
+        ok = np.allclose(back12["displacements"], d12, atol=1e-15) and np.allclose(back12["forces"], f12, atol=1e-10)
+        facts.append(("FORCE_SETS type-1 read with to_type2: equals the converted dataset", bool(ok), "FORCE_SETS (type 1) read with to_type2=True differs from the type-2 form of the written dataset"))
+        # --- FORCE_CONSTANTS / hdf5, full and compact
+        F = rng.uniform(-1, 1, (n, n, 3, 3))
+        p2s = np.array(ph.primitive.p2s_map, dtype="intc")
+        Fc = np.array(F[p2s], order="C")
+        for label, arr, m in (("full", F, None), ("compact", Fc, p2s), ("full, p2s_map given", F, p2s)):
+            file_IO.write_FORCE_CONSTANTS(arr, filename="FC_txt", p2s_map=m)
+            try:
+                back = file_IO.parse_FORCE_CONSTANTS(filename="FC_txt", p2s_map=m)
+                ok = back.shape == arr.shape and np.allclose(back, arr, atol=1e-14)
+            except Exception:
+                ok = False
+            facts.append(("FORCE_CONSTANTS (%s): array parses back as written" % label, bool(ok), "FORCE_CONSTANTS (%s layout) written by phonopy parses back to another array or is refused" % label))
+            for comp in (None, "gzip"):
+                file_IO.write_force_constants_to_hdf5(arr, filename="fc.hdf5", p2s_map=m, physical_unit="eV/angstrom^2", compression=comp)
+                try:
+                    back, unit = file_IO.read_force_constants_hdf5(filename="fc.hdf5", p2s_map=m, return_physical_unit=True)
+                    ok = back.shape == arr.shape and np.array_equal(back, arr) and unit == "eV/angstrom^2"
+                    back2 = file_IO.read_force_constants_hdf5(filename="fc.hdf5", p2s_map=m)
+                    ok = ok and np.array_equal(back2, arr)
+                except Exception:
+                    ok = False
+                facts.append(("force_constants.hdf5 (%s, compression=%s): array and unit read back bit-identical" % (label, comp), bool(ok),
+                              "force_constants.hdf5 (%s layout, compression=%s) written by phonopy reads back to other data" % (label, comp)))
+        # compact force constants written with the indices of the file must be refused for another primitive map (documented consistency check)
+        file_IO.write_FORCE_CONSTANTS(Fc, filename="FC_txt", p2s_map=p2s)
+        try:
+            file_IO.parse_FORCE_CONSTANTS(filename="FC_txt", p2s_map=np.array([0, 2], dtype="intc")); ok = False
+        except Exception:
+            ok = True
+        facts.append(("FORCE_CONSTANTS (compact): a file whose first indices are not the caller's p2s_map is refused", ok, "compact FORCE_CONSTANTS with first-atom indices different from p2s_map is accepted"))
+        # --- BORN: rutile-like (4 O atoms related by symmetry, anisotropic tensors) and the F-centred rock salt given as interleaved unit cell
+        from phonopy.structure.atoms import PhonopyAtoms
+        from phonopy.structure.symmetry import symmetrize_borns_and_epsilon
+        for cname in ("rutile-like", "P3"):
+            sym_, lat_, pos_ = CRYSTALS[cname]
+            cell = PhonopyAtoms(symbols=sym_, cell=np.array(lat_, dtype=float), scaled_positions=np.array(pos_, dtype=float))
+            php = phonopy.Phonopy(cell, supercell_matrix=np.eye(3, dtype=int), primitive_matrix=None, log_level=0)
+            Z0 = rng.uniform(-2, 2, (len(cell), 3, 3)); e0 = rng.uniform(1, 3, (3, 3))
+            import warnings
+            with warnings.catch_warnings():
+                warnings.simplefilter("ignore")
+                Zs, es = symmetrize_borns_and_epsilon(Z0, e0, php.primitive)[:2]
+            Zs = np.round(Zs, 8); es = np.round(es, 8)                   # the file holds 8 decimals
+            txt = "\n".join(file_IO.get_BORN_lines(php.primitive, Zs, es))
+            back = file_IO.parse_BORN_from_strings(txt, php.primitive)
+            ok = back is not None and np.allclose(back["born"], Zs, atol=3e-8) and np.allclose(back["dielectric"], es, atol=3e-8)
+            facts.append(("BORN (%s): tensors of all atoms regenerate from the written file" % cname, bool(ok), "BORN written by phonopy parses back to other Born charges / dielectric tensor (%s)" % cname))
+        # --- save()/load() of the whole object
+        ph.produce_force_constants(show_drift=False)
+        Z = np.zeros((2, 3, 3)); Z[0] = np.eye(3) * 1.1; Z[1] = -np.eye(3) * 1.1
+        ph.nac_params = {"born": Z, "dielectric": np.eye(3) * 2.4, "factor": 14.4}
+        ph.supercell_energies = list(rng.uniform(-3, 3, len(ph.displacements)))
+        qs = np.array([[0.1, 0.2, 0.3], [0.5, 0.0, 0.0], [0.0, 0.0, 0.02]])
+        ph.run_qpoints(qs); f_ref = ph.get_qpoints_dict()["frequencies"].copy()
+        variants = (("dataset form", dict(), "p.yaml"), ("force-constant form", dict(settings={"force_sets": False, "displacements": False, "force_constants": True}), "p.yaml"),
+                    ("dataset form, xz-compressed", dict(compression="xz"), "p.yaml"), ("dataset form, gzip", dict(compression=True), "p.yaml"))
+        for label, kw, fn in variants:
+            for f in os.listdir("."):
+                os.remove(f)
+            try:
+                out = ph.save(filename=fn, **kw)
+                ph2 = phonopy.load(out, log_level=0, is_compact_fc=False, symmetrize_fc=False)
+                ok = np.abs(ph2.supercell.cell - ph.supercell.cell).max() < 1e-12 and np.abs(ph2.supercell.scaled_positions - ph.supercell.scaled_positions).max() < 1e-12
+                ok = ok and np.array_equal(ph2.supercell_matrix, ph.supercell_matrix) and np.allclose(ph2.primitive_matrix, ph.primitive_matrix, atol=1e-12)
+                ok = ok and list(ph2.primitive.symbols) == list(ph.primitive.symbols) and np.allclose(ph2.primitive.masses, ph.primitive.masses)
+                facts.append(("save/load (%s): cells and matrices" % label, bool(ok), "cells/matrices differ after save()+load() (%s)" % label))
+                ok = ph2.nac_params is not None and np.allclose(ph2.nac_params["born"], Z, atol=1e-8) and np.allclose(ph2.nac_params["dielectric"], np.eye(3) * 2.4, atol=1e-8) and abs(ph2.nac_params["factor"] - 14.4) < 1e-8
+                facts.append(("save/load (%s): NAC parameters incl. factor" % label, bool(ok), "NAC parameters differ after save()+load() (%s)" % label))
+                if "force-constant" in label:
+                    ok = ph2.dataset is None and ph2.force_constants is not None and ph2.force_constants.shape == ph.force_constants.shape
+                else:
+                    ok = ph2.dataset is not None and len(ph2.dataset["first_atoms"]) == len(ds1["first_atoms"]) and all(
+                        a["number"] == b["number"] and np.allclose(a["displacement"], b["displacement"], atol=1e-12) and np.allclose(a["forces"], b["forces"], atol=1e-9)
+                        and abs(a["supercell_energy"] - b["supercell_energy"]) < 1e-7 for a, b in zip(ph.dataset["first_atoms"], ph2.dataset["first_atoms"]))
+                facts.append(("save/load (%s): dataset (or its absence)" % label, bool(ok), "dataset differs after save()+load() (%s)" % label))
+                ok = ph2.force_constants is not None and ph2.force_constants.shape == ph.force_constants.shape and np.allclose(ph2.force_constants, ph.force_constants, atol=1e-8)
+                facts.append(("save/load (%s): force constants (as stored or as re-derived from the dataset)" % label, bool(ok), "force constants differ after save()+load() (%s)" % label))
+                ph2.run_qpoints(qs); f2 = ph2.get_qpoints_dict()["frequencies"]
+                ok = ok and np.allclose(f2, f_ref, atol=1e-6)
+                facts.append(("save/load (%s): phonon frequencies at generic, boundary and near-Gamma q (NAC on)" % label, bool(ok), "phonon frequencies differ after save()+load() (%s)" % label))
+                ok = ph2.calculator == ph.calculator
+                facts.append(("save/load (%s): calculator" % label, bool(ok), "calculator differs after save()+load() (%s)" % label))
+            except Exception as e:      # noqa
+                facts.append(("save/load (%s): completes" % label, False, "save()+load() raises %s: %s (%s)" % (type(e).__name__, str(e)[:80], label)))
+    finally:
+        os.chdir(cwd)
+        br.uninstall()
+        shutil.rmtree(tmp, ignore_errors=True)
+    for name, ok, what in facts:
+        res.queries.append({"name": name + " [ground fact]", "verdict": "unsat" if ok else "sat", "seconds": 0.0, "nvars": 0, "nontrivial": False, "hash": "ground"})
+        if not ok:
+            res.violations.append({"key": "%s:files:%s" % (PID, name[:60].replace(" ", "_").replace(":", "")), "what": what, "replay": {}})
+    res.twins.append({"name": "files twin", "verdict": "sat"})
+    res.samples.append({"unit": res.unit, "facts": [f[0] for f in facts]})
+    return res
+
+
 def run_unit(u):
     res = Result("/".join(str(x) for x in u))
     if u[0] == "yaml":
         return yaml_unit(u, res)
+    if u[0] == "files":
+        return files_unit(u, res)
     return dataset_unit(u, res) if u[0] == "dataset" else born_unit(u, res)
 
 
@@ -279,7 +420,7 @@ def main(tier, seed):
     harness.setup()
     us = units(tier)
     chk.bounds = ["datasets: 4 atoms, 3 displacements, displaced-atom index tuples (0,2,3) and (1,1,0), with and without forces", "Born expansion: crystals %s, all tensor entries in [-1,1] before symmetrisation" % sorted(CRYSTALS)]
-    chk.outside = ["phonopy.yaml / FORCE_SETS / FORCE_CONSTANTS / hdf5 / BORN text round trips, save()/load() priority rules, compression (text formats and C libraries: not encodable)"]
+    chk.outside = ["file round trips (phonopy.yaml, FORCE_SETS, FORCE_CONSTANTS, hdf5, BORN, save()/load(), compression) are evaluated as ground facts on listed concrete objects only (text formats and C libraries: not encodable); load()'s priority rules between competing files in a directory are not covered"]
     chk.assumptions = ["harness oracle: space-group average of the Born tensors (self-tested for invariance)", "spglib symmetry search trusted"]
     chk.run_units(run_unit, us)
     return chk.finish()
